@@ -470,19 +470,36 @@ def _class_api(cfg, cost, tr, R, max_rounds):
             s.SetEvaluationLimits(cfg['limits'][0], cfg['limits'][1])
         elif call == 'term' and R.term is not None:
             s.SetTermination(R.term)
-        elif call == 'evalmon' and cfg.get('evalmon'):
-            s.SetEvaluationMonitor(Monitor())
+        elif call == 'evalmon' and (cfg.get('evalmon') or cfg.get('em_preload')):
+            s.SetEvaluationMonitor(preloaded(cfg.get('em_preload') or 0, cfg))
+            if cfg.get('sm_preload'):
+                s.SetGenerationMonitor(preloaded(cfg['sm_preload'], cfg))
         elif call == 'map':
             m = make_map(cfg.get('map'), tr)
             if m is not None:
                 s.SetMapper(m)
     mode = cfg.get('mode', 'solve')
+    _drive(s, cost, mode, tr, R, max_rounds)
+    if cfg.get('twice'):
+        # solved twice in a row: raise the limits (on the ensemble and on the members it already holds) and go on
+        R.calls_first = len(tr.calls)
+        g2, e2 = cfg['twice']
+        tr.max_map_calls += (g2 + 10 if g2 is not None else e2 + 25)
+        s.SetEvaluationLimits(g2, e2)
+        for m in s._allSolvers:
+            m.SetEvaluationLimits(g2, e2)
+        _drive(s, None, mode, tr, R, max_rounds)
+    return s
+
+
+def _drive(s, cost, mode, tr, R, max_rounds):
     if mode == 'solve':
         s.Solve(cost)
     elif mode == 'stepsolve':
         s.Solve(cost, step=True)
     elif mode == 'steploop':
-        s.SetObjective(cost)
+        if cost is not None:
+            s.SetObjective(cost)
         for k in range(max(max_rounds, tr.max_map_calls + 5)):
             msg = s.Step()
             R.rounds.append((msg, len(tr.calls)))
@@ -492,7 +509,17 @@ def _class_api(cfg, cost, tr, R, max_rounds):
             raise Horizon('step loop did not stop within %d rounds' % max_rounds)
     else:
         raise KeyError(mode)
-    return s
+
+
+def preloaded(L, cfg):
+    """a Monitor that already holds L records (legacy data handed to the ensemble) at points inside the box"""
+    from mystic.monitors import Monitor
+    m = Monitor()
+    dim = ens_dim(cfg)
+    lo, hi = box_of(cfg.get('box') or 'unit', dim)
+    for f in (0.25, 0.5, 0.875)[:L]:
+        m([l + f * (h - l) for l, h in zip(lo, hi)], 9.0 + f)
+    return m
 
 
 def _wrapper(cfg, cost, tr, R):
@@ -515,6 +542,10 @@ def _wrapper(cfg, cost, tr, R):
         kw['solver'] = nested_class(cfg['nested'])
     if cfg.get('retall'):
         kw['retall'] = 1
+    if cfg.get('em_preload'):
+        kw['evalmon'] = preloaded(cfg['em_preload'], cfg)
+    if cfg.get('sm_preload'):
+        kw['itermon'] = preloaded(cfg['sm_preload'], cfg)
     m = make_map(cfg.get('map'), tr)
     if m is not None:
         kw['map'] = m
